@@ -132,7 +132,13 @@ theorem logRender (f : Ed → RenderOp) : TextPure (Rl.logRender f) := modify _ 
 
 theorem moveCursor (S : Segmenter) (U : UData) (cfg : EdCfg) : TextPure (Rl.moveCursor S U cfg) := by
   unfold Rl.moveCursor
-  exact bind (highlightCharStep cfg) (fun _ => bind (modify _ (fun _ => rfl)) (fun _ => logRender _))
+  refine bind (fun _ => rfl) (fun s => ?_)
+  refine ite (logRender _) ?_
+  refine bind (highlightCharStep cfg) (fun hl => ?_)
+  dsimp only
+  refine ite ?_ ?_
+  · exact bind (modify _ (fun _ => rfl)) (fun _ => logRender _)
+  · exact bind (modify _ (fun _ => rfl)) (fun _ => logRender _)
 
 theorem editMove (S : Segmenter) (U : UData) (cfg : EdCfg) {op : LM Bool} (h : PosOnly op) :
     TextPure (Rl.editMove S U cfg op) := by
